@@ -260,6 +260,19 @@ fn ref_scrape_response(files: &BTreeMap<[u8; 20], (usize, usize)>) -> Vec<u8> {
 }
 
 fn gen_text(r: &mut SplitMix) -> String {
+    // a quarter: text that looks like bencode structure (runs of list / dict / integer openers, length prefixes) - payload
+    // that anything scanning the bytes without parsing them (the nesting guard of the bundled client) must skip over
+    if r.chance(1, 4) {
+        let mut s = String::new();
+        for _ in 0..(1 + r.usize(3)) {
+            let c = *r.pick(&['l', 'd', 'i', 'e', '9']);
+            for _ in 0..(10 + r.usize(80)) {
+                s.push(c);
+            }
+            s.push_str(*r.pick(&["", ":", "5:", "i-", "le"]));
+        }
+        return s;
+    }
     let len = r.usize(40);
     (0..len).map(|_| *r.pick(&['a', ' ', ':', 'e', 'd', '0', 'é', '𝕊', '\n', '"', 'l', 'i'])).collect()
 }
@@ -460,8 +473,11 @@ fn main() {
         // ---- D: replies
         let n4 = *r.pick(&[0usize, 0, 1, 2, 50, 200]);
         let n6 = *r.pick(&[0usize, 0, 1, 2, 50, 200]);
-        let p4: Vec<(Ipv4Addr, u16)> = (0..n4).map(|_| (Ipv4Addr::from(r.next() as u32), r.next() as u16)).collect();
-        let p6: Vec<(Ipv6Addr, u16)> = (0..n6).map(|_| (Ipv6Addr::from((r.next() as u128) << 64 | r.next() as u128), r.next() as u16)).collect();
+        // a fifth of the replies: compact peer entries whose bytes are all 'l' / 'd' / 'i' (108.100.105.x:0x6c64 ...)
+        let looks_like_bencode = r.chance(1, 5);
+        let lb = |r: &mut SplitMix| *r.pick(&[b'l', b'd', b'i', b'l', b'd']);
+        let p4: Vec<(Ipv4Addr, u16)> = (0..n4).map(|_| if looks_like_bencode { (Ipv4Addr::new(lb(&mut r), lb(&mut r), lb(&mut r), lb(&mut r)), u16::from_be_bytes([lb(&mut r), lb(&mut r)])) } else { (Ipv4Addr::from(r.next() as u32), r.next() as u16) }).collect();
+        let p6: Vec<(Ipv6Addr, u16)> = (0..n6).map(|_| if looks_like_bencode { let b = lb(&mut r); (Ipv6Addr::from([b; 16]), u16::from_be_bytes([b, lb(&mut r)])) } else { (Ipv6Addr::from((r.next() as u128) << 64 | r.next() as u128), r.next() as u16) }).collect();
         let warning = if r.chance(1, 3) { Some(gen_text(&mut r)) } else { None };
         // counters are bounded by i64::MAX: bencode integers are read back as i64 by the bundled client (documented assumption)
         let (interval, complete, incomplete) = (gen_count(&mut r), gen_count(&mut r), gen_count(&mut r));
